@@ -1,5 +1,5 @@
 (* Main.v — single entry point of the extracted model: one case in, observation text out. *)
-From PyDBML Require Import PyStr Py Sx Tools.
+From PyDBML Require Import PyStr Py Sx Tools Script.
 Import ListNotations.
 
 Definition bad : pystr := s2l "BAD-CASE".
@@ -70,5 +70,6 @@ Definition run_text (fn : N) (args : list sx) : pystr :=
 Definition run_case (c : sx) : pystr :=
   match c with
   | SL (SA 1%N :: SA fn :: args) => run_text fn args
+  | SL [SA 2%N; rdefs; ops] => run_script rdefs ops
   | _ => bad
   end.
